@@ -68,6 +68,21 @@ def run(prop, tier, replay=None):
     rnd = random.Random(vlib.seed())
     binary = vlib.build_driver("gwdrv")
     scenarios, states, transitions, mc_info = [], 0, 0, []
+    halves = {}
+    if not replay:
+        from concurrent.futures import ThreadPoolExecutor
+        import clientlib, interop
+
+        def client_half():
+            try:
+                return clientlib.run_client_half("C25", tier)
+            except vlib.Inconclusive as ex:
+                # a model gap of the client-library spec is not a crash; the crash oracle of the
+                # client half is then reported as not evaluated in the evidence
+                return [], {"not_evaluated": str(ex)[:300]}
+        pool = ThreadPoolExecutor(max_workers=2)
+        halves = {"client": pool.submit(client_half),
+                  "interop": pool.submit(lambda: interop.crash_half(tier, random.Random(vlib.seed() + 7)))}
     if replay:
         payload = json.load(open(replay))
         if payload.get("interop"):
@@ -101,25 +116,13 @@ def run(prop, tier, replay=None):
             raise vlib.Inconclusive("harness failure: " + c["output"][-500:])
         violations.append({"sig": panic_sig(c["output"]), "what": "gateway session process died in scenario %s" % c["scenario"]["id"],
                            "replay": {"scenario": c["scenario"], "output": c["output"][-2500:], "trace": c["partial"]}})
-    # client-library half (families/clientlib.py), when present
-    client_cov = None
-    try:
-        import clientlib
-        if hasattr(clientlib, "run_client_half"):
-            try:
-                cv, client_cov = clientlib.run_client_half("C25", tier)
-                violations += cv
-            except vlib.Inconclusive as ex:
-                # a model gap of the client-library spec is not a crash; the crash oracle of the
-                # client half is then reported as not evaluated in the evidence
-                client_cov = {"not_evaluated": str(ex)[:300]}
-    except ImportError:
-        pass
-    # both implementations talking to each other (families/interop.py)
-    interop_cov = None
-    if not replay:
-        import interop
-        iv, interop_cov = interop.crash_half(tier, rnd)
+    # the client-library half (families/clientlib.py) and the two implementations talking to each other
+    # (families/interop.py) were started in the background at the beginning
+    client_cov = interop_cov = None
+    if halves:
+        cv, client_cov = halves["client"].result()
+        violations += cv
+        iv, interop_cov = halves["interop"].result()
         violations += iv
     # consume the surviving traces with the trace spec (totality of the model on what the code was given)
     viol, stat, cover, traces = gateway.judge(lines, ["C25"])
